@@ -17,6 +17,7 @@ THEOREMS = [
     "Mpc.C15_kos_accept_iff",
     "Mpc.C15_kos_unselected_harmless",
     "Mpc.C15_kos_single_row_sound",
+    "Mpc.C15_kos_never_silent_partial",
     "Mpc.C15_kos_response_sound",
     "Mpc.C15_kos_adaptive_forgery_witness",
 ]
